@@ -160,7 +160,8 @@ def judge_curve(case):
     mix = U.get_mixture(case["mixture"])
     cfg = case["curves"]
     cs = U.make_curve_set(mix, law=cfg["law"], temps=tuple(cfg["temps"]), basis=cfg.get("basis", "weight"), units=cfg.get("units", U.Units.kg_m2_h_kPa))
-    mem = U.make_membrane(mix, 1e-2, 1e-4, t_ref=case["T"] - 9.0, ea1=25000.0, ea2=60000.0, curve_sets=[cs])
+    ea = case.get("ea", (25000.0, 60000.0))
+    mem = U.make_membrane(mix, 1e-2, 1e-4, t_ref=case["T"] - 9.0, ea1=ea[0], ea2=ea[1], curve_sets=[cs])
     pv = U.Pervaporation(membrane=mem, mixture=mix)
     mode = tuple(case["mode"]) if case["mode"] != "vac" else "vac"
     kw = U.permeate_kwargs(mode, case["T"])
@@ -249,9 +250,10 @@ def process_space(tier, seed):
         "curves": [spaces.CURVE_CONFIGS["one"], spaces.CURVE_CONFIGS["two"], spaces.CURVE_CONFIGS["oneB_molar"], spaces.CURVE_CONFIGS["oneC"], spaces.CURVE_CONFIGS["two_sameT"]] if q else list(spaces.CURVE_CONFIGS.values()),
         "init_perm": [None, {"values": (2.5e-2, 3.0e-5)}, {"values": (1.0e-2, 8.0e-5), "units": "GPU"}, {"values": (2.0e-2, 4.0e-9)}],
         "fit_kwargs": [{}, {"n_first": 1, "n_second": 1, "m_first": 0, "m_second": 0}] + ([] if q else [{"n_first": 2, "n_second": 1, "m_first": 1, "m_second": 1, "include_zero": True}]),
-        "area": [0.05, 1.0], "amount": [50.0], "dt": core.lat([0.5, 2.0], seed)[:1] if q else core.lat([0.5, 2.0], seed),
+        "area": [1.0] if q else [0.05, 1.0], "amount": [50.0], "dt": core.lat([0.5, 2.0], seed)[:1] if q else core.lat([0.5, 2.0], seed),
+        "ea": [(25000.0, 60000.0), (-9000.0, 0.0)],  # a negative and a zero activation energy are as valid as positive ones
         "steps": [1, 5],
-        "x0": core.lat([0.1, 0.45], seed), "basis": ["weight", "molar"], "T": [333.15, 338.15, 318.15],
+        "x0": core.lat([0.1, 0.45], seed), "basis": ["weight", "molar"], "T": [333.15, 338.15, 318.15, 333.4] if q else [333.15, 338.15, 318.15, 333.4, 333.151],
     }
 
     def ok(c):
@@ -268,7 +270,7 @@ def curve_space(tier, seed):
         "curves": [spaces.CURVE_CONFIGS["one"], spaces.CURVE_CONFIGS["two"], spaces.CURVE_CONFIGS["oneB_molar"], spaces.CURVE_CONFIGS["oneC"], spaces.CURVE_CONFIGS["two_sameT"]] if q else list(spaces.CURVE_CONFIGS.values()),
         "init_perm": [None, {"values": (2.5e-2, 3.0e-5)}, {"values": (2.0e-2, 4.0e-9)}],
         "fit_kwargs": [{}, {"n_first": 1, "n_second": 1, "m_first": 0, "m_second": 0}, {"include_zero": True}],
-        "x0": core.lat([0.1, 0.45], seed), "basis": ["weight", "molar"], "T": [333.15, 338.15, 318.15], "dx": [0.03, -0.01], "steps": [1, 4],
+        "x0": core.lat([0.1, 0.45], seed), "basis": ["weight", "molar"], "T": [333.15, 338.15, 318.15, 333.4], "ea": [(25000.0, 60000.0), (-9000.0, 0.0)], "dx": [0.03, -0.01], "steps": [1, 4],
     }
     return core.Space("nonideal_curves", alph, lambda c: U.has_model(U.get_mixture(c["mixture"]), c["model"]))
 
